@@ -138,7 +138,9 @@ func New(config ...Config) fiber.Handler {
 		// Cache Entry found
 		if e != nil {
 			// Invalidate cache if requested
-			if cfg.CacheInvalidator != nil && cfg.CacheInvalidator(c) {
+			// (an external storage hands out an empty entry for a key it does not hold:
+			// there is nothing to invalidate then, and nothing of it in the heap)
+			if cfg.CacheInvalidator != nil && cfg.CacheInvalidator(c) && e.exp != 0 {
 				e.exp = ts - 1
 			}
 
